@@ -151,11 +151,15 @@ pub struct EnvPlan {
     /// flush, like a BufWriter whose flush is never implied.
     #[serde(default)]
     pub buffered: bool,
+    /// clones of a source share one file position (like two handles on the same `&File` or a
+    /// `try_clone`d descriptor) instead of each having its own
+    #[serde(default)]
+    pub shared_pos: bool,
 }
 
 impl EnvPlan {
     pub fn whole() -> EnvPlan {
-        EnvPlan { modes: vec![IoMode::Whole], stream: 0, faults: vec![], crash: None, buffered: false }
+        EnvPlan { modes: vec![IoMode::Whole], stream: 0, faults: vec![], crash: None, buffered: false, shared_pos: false }
     }
     pub fn is_whole(&self) -> bool {
         self.modes.iter().all(|m| *m == IoMode::Whole)
@@ -419,7 +423,7 @@ pub struct SimFile {
     pub id: u32,
     pub role: Role,
     data: Rc<RefCell<Vec<u8>>>,
-    pos: u64,
+    pos_cell: Rc<std::cell::Cell<u64>>,
     mode: IoMode,
     rng: Rng,
     /// remaining Interrupted results of the current burst (ChopBurst)
@@ -458,7 +462,7 @@ impl SimFile {
             id,
             role,
             data: Rc::new(RefCell::new(bytes)),
-            pos: 0,
+            pos_cell: Rc::new(std::cell::Cell::new(0)),
             mode,
             rng: Rng::new(seed),
             burst_left: 0,
@@ -531,7 +535,7 @@ impl Clone for SimFile {
             id: self.id,
             role: self.role,
             data: self.data.clone(),
-            pos: self.pos,
+            pos_cell: if self.env.0.borrow().plan.shared_pos { self.pos_cell.clone() } else { Rc::new(std::cell::Cell::new(self.pos_cell.get())) },
             mode: self.mode,
             rng: Rng::new(seed),
             burst_left: 0,
@@ -558,21 +562,21 @@ impl Read for SimFile {
         let env = self.env.clone();
         let mut e = env.0.borrow_mut();
         e.io_calls += 1;
-        let off = self.pos;
+        let off = self.pos_cell.get();
         if let Some(f) = e.tick(IoKind::Read, self.id, Some(self.role)) {
             e.log(IoEvent { file: self.id, kind: IoKind::Read, off, req: buf.len() as u64, out: -2 });
             return Err(Self::fault_err(io_kind_for(f.err, IoKind::Read), f.k));
         }
         if let Some(sp) = self.sparse.clone() {
             let sp = sp.borrow();
-            if self.pos >= sp.len || buf.is_empty() {
+            if self.pos_cell.get() >= sp.len || buf.is_empty() {
                 e.log(IoEvent { file: self.id, kind: IoKind::Read, off, req: buf.len() as u64, out: 0 });
                 return Ok(0);
             }
-            let i = sp.ext.partition_point(|(s, _)| *s <= self.pos).checked_sub(1);
+            let i = sp.ext.partition_point(|(s, _)| *s <= self.pos_cell.get()).checked_sub(1);
             let hit = i.and_then(|i| {
                 let (s0, b) = &sp.ext[i];
-                let rel = (self.pos - s0) as usize;
+                let rel = (self.pos_cell.get() - s0) as usize;
                 if rel < b.len() {
                     Some((i, rel))
                 } else {
@@ -595,12 +599,12 @@ impl Read for SimFile {
                 Some(n) => n,
             };
             buf[..n].copy_from_slice(&b[rel..rel + n]);
-            self.pos += n as u64;
+            self.pos_cell.set(self.pos_cell.get() + n as u64);
             e.log(IoEvent { file: self.id, kind: IoKind::Read, off, req: buf.len() as u64, out: n as i64 });
             return Ok(n);
         }
         let (hole_at, hole_len) = self.hole.unwrap_or((u64::MAX, 0));
-        if self.pos >= hole_at && self.pos < hole_at.saturating_add(hole_len) {
+        if self.pos_cell.get() >= hole_at && self.pos_cell.get() < hole_at.saturating_add(hole_len) {
             // No block lives inside the hole: a reader that ends up here has mis-computed an offset.
             // Serving terabytes of zeros would only exhaust memory, so the read fails at once.
             e.fx.inc("fired.read_inside_sparse_hole");
@@ -610,11 +614,11 @@ impl Read for SimFile {
         let data = self.data.borrow();
         let logical_len = data.len() as u64 + hole_len;
         // never serve a read across the hole boundaries in one call (keeps the mapping simple)
-        let mut avail = logical_len.saturating_sub(self.pos);
-        if self.pos < hole_at {
-            avail = avail.min(hole_at - self.pos);
-        } else if self.pos < hole_at.saturating_add(hole_len) {
-            avail = avail.min(hole_at + hole_len - self.pos);
+        let mut avail = logical_len.saturating_sub(self.pos_cell.get());
+        if self.pos_cell.get() < hole_at {
+            avail = avail.min(hole_at - self.pos_cell.get());
+        } else if self.pos_cell.get() < hole_at.saturating_add(hole_len) {
+            avail = avail.min(hole_at + hole_len - self.pos_cell.get());
         }
         let want = (buf.len() as u64).min(avail) as usize;
         if want == 0 {
@@ -634,15 +638,15 @@ impl Read for SimFile {
             e.fx.inc("fired.short_read");
         }
         let data = self.data.borrow();
-        if self.pos >= hole_at && self.pos < hole_at.saturating_add(hole_len) {
+        if self.pos_cell.get() >= hole_at && self.pos_cell.get() < hole_at.saturating_add(hole_len) {
             for b in buf[..n].iter_mut() {
                 *b = 0;
             }
         } else {
-            let phys = if self.pos >= hole_at { self.pos - hole_len } else { self.pos } as usize;
+            let phys = if self.pos_cell.get() >= hole_at { self.pos_cell.get() - hole_len } else { self.pos_cell.get() } as usize;
             buf[..n].copy_from_slice(&data[phys..phys + n]);
         }
-        self.pos += n as u64;
+        self.pos_cell.set(self.pos_cell.get() + n as u64);
         e.log(IoEvent { file: self.id, kind: IoKind::Read, off, req: buf.len() as u64, out: n as i64 });
         Ok(n)
     }
@@ -653,7 +657,7 @@ impl Write for SimFile {
         let env = self.env.clone();
         let mut e = env.0.borrow_mut();
         e.io_calls += 1;
-        let off = self.pos;
+        let off = self.pos_cell.get();
         if let Some(f) = e.tick(IoKind::Write, self.id, Some(self.role)) {
             e.log(IoEvent { file: self.id, kind: IoKind::Write, off, req: buf.len() as u64, out: -2 });
             if io_kind_for(f.err, IoKind::Write) == io::ErrorKind::WriteZero && (f.err / 9) % 2 == 1 && !buf.is_empty() {
@@ -670,7 +674,7 @@ impl Write for SimFile {
         if let Some(sp) = self.sparse.clone() {
             let mut sp = sp.borrow_mut();
             let n = buf.len();
-            if self.pos != sp.len {
+            if self.pos_cell.get() != sp.len {
                 return Err(io::Error::new(io::ErrorKind::Unsupported, "sparse sinks are append-only"));
             }
             if e.hole_big_writes && n >= 32 * 1024 {
@@ -683,7 +687,7 @@ impl Write for SimFile {
                 });
             }
             sp.len += n as u64;
-            self.pos += n as u64;
+            self.pos_cell.set(self.pos_cell.get() + n as u64);
             e.log(IoEvent { file: self.id, kind: IoKind::Write, off, req: n as u64, out: n as i64 });
             return Ok(n);
         }
@@ -714,20 +718,20 @@ impl Write for SimFile {
         if let Some(p) = e.split_probe.as_mut() {
             p(self.id, off, n as u64);
         }
-        let appending = self.pos as usize == self.data.borrow().len() + self.pending.len();
+        let appending = self.pos_cell.get() as usize == self.data.borrow().len() + self.pending.len();
         if self.buffered && appending {
             crate::alloc::storage_scope(|| self.pending.extend_from_slice(&buf[..n]));
             if self.role == Role::Chunk {
                 e.chunk_bytes_written += n as u64;
             }
-            self.pos += n as u64;
+            self.pos_cell.set(self.pos_cell.get() + n as u64);
             e.fx.inc("fired.buffered_write");
             e.log(IoEvent { file: self.id, kind: IoKind::Write, off, req: buf.len() as u64, out: n as i64 });
             return Ok(n);
         }
         crate::alloc::storage_scope(|| {
             let mut data = self.data.borrow_mut();
-            let pos = self.pos as usize;
+            let pos = self.pos_cell.get() as usize;
             if pos > data.len() {
                 data.resize(pos, 0);
             }
@@ -738,7 +742,7 @@ impl Write for SimFile {
         if self.role == Role::Chunk {
             e.chunk_bytes_written += n as u64;
         }
-        self.pos += n as u64;
+        self.pos_cell.set(self.pos_cell.get() + n as u64);
         e.log(IoEvent { file: self.id, kind: IoKind::Write, off, req: buf.len() as u64, out: n as i64 });
         Ok(n)
     }
@@ -760,7 +764,7 @@ impl Write for SimFile {
         let mut e = env.0.borrow_mut();
         e.io_calls += 1;
         if let Some(f) = e.tick(IoKind::Flush, self.id, Some(self.role)) {
-            e.log(IoEvent { file: self.id, kind: IoKind::Flush, off: self.pos, req: 0, out: -2 });
+            e.log(IoEvent { file: self.id, kind: IoKind::Flush, off: self.pos_cell.get(), req: 0, out: -2 });
             return Err(Self::fault_err(io_kind_for(f.err, IoKind::Flush), f.k));
         }
         if !self.pending.is_empty() {
@@ -768,7 +772,7 @@ impl Write for SimFile {
             crate::alloc::storage_scope(|| self.data.borrow_mut().extend_from_slice(&pending));
             e.fx.inc("fired.flush_made_data_durable");
         }
-        e.log(IoEvent { file: self.id, kind: IoKind::Flush, off: self.pos, req: 0, out: 0 });
+        e.log(IoEvent { file: self.id, kind: IoKind::Flush, off: self.pos_cell.get(), req: 0, out: 0 });
         Ok(())
     }
 }
@@ -794,7 +798,7 @@ impl Seek for SimFile {
         let target: i128 = match to {
             SeekFrom::Start(x) => x as i128,
             SeekFrom::End(x) => len + x as i128,
-            SeekFrom::Current(x) => self.pos as i128 + x as i128,
+            SeekFrom::Current(x) => self.pos_cell.get() as i128 + x as i128,
         };
         if target < 0 || target > u64::MAX as i128 {
             e.log(IoEvent { file: self.id, kind: IoKind::Seek, off: arg, req: code, out: -4 });
@@ -803,9 +807,9 @@ impl Seek for SimFile {
                 "invalid seek to a negative or overflowing position",
             ));
         }
-        self.pos = target as u64;
+        self.pos_cell.set(target as u64);
         e.log(IoEvent { file: self.id, kind: IoKind::Seek, off: arg, req: code, out: target as i64 });
-        Ok(self.pos)
+        Ok(self.pos_cell.get())
     }
 }
 
